@@ -4,4 +4,4 @@ cd /verif/coq && timeout 3000 coqchk -silent -o -Q . ES ES.Comp.StripSem ES.Comp
   ES.Script.Proofs ES.Script.Renumber ES.SM.Proofs ES.Hist.Frame ES.Pyg.Proofs ES.Text.StrProofs ES.Text.Dec ES.Dec.WriterProofs \
   ES.Lang.InlineProofs ES.Lang.SrcSem \
   ES.Text.MStrProofs ES.Text.MLexProofs ES.Text.NumProofs ES.Text.MetaProofs ES.Lang.StaticProofs ES.Lang.MacroStaticProofs \
-  ES.Lang.InlineFree ES.Lang.DomainProofs ES.Comp.MacroRAProofs ES.Comp.MacroBuildProofs ES.Comp.ExpandSame ES.Comp.ReturnSem ES.Script.Shift
+  ES.Lang.InlineFree ES.Lang.DomainProofs ES.Comp.MacroRAProofs ES.Comp.MacroBuildProofs ES.Comp.ExpandSame ES.Comp.ReturnSem ES.Comp.DefsOnce ES.Script.Shift
